@@ -83,7 +83,27 @@ type c06Zone struct {
 	name               string
 }
 
+// c06Check: the drawn blob, and for every second case a history on one buffer: a second blob of the
+// same total length (|o| and |w| exchanged, other z and s) is written over the first one in place and
+// initialised from there. Y(p, a) is a function of the octets of p, whatever buffer holds them.
 func c06Check(c *kit.Case, in c06Input) {
+	var buf []byte
+	c06CheckOne(c, in, &buf)
+	if in.Seed%2 == 0 && in.Trunc == 0 && len(in.Tail) == 0 && buf != nil {
+		in2 := in
+		in2.OLen, in2.WLen = in.WLen, in.OLen
+		in2.Z = (in.Z + 2) % 65536
+		in2.S = (in.S + 4096) % (1 << 24)
+		in2.Seed = in.Seed ^ 0x5A
+		if in2.Seed == 0 {
+			in2.Seed = 1
+		}
+		c.Class("same_buffer_second_blob")
+		c06CheckOne(c, in2, &buf)
+	}
+}
+
+func c06CheckOne(c *kit.Case, in c06Input, reuse *[]byte) {
 	if in.OLen < 0 || in.WLen < 0 || in.S < 0 || in.Z < 0 || in.CLen < 0 || in.ALen < 0 ||
 		in.OLen >= 1<<24 || in.WLen >= 1<<24 || in.S >= 1<<24 || in.Z >= 1<<16 || in.ALen > 1<<24 {
 		return
@@ -126,7 +146,14 @@ func c06Check(c *kit.Case, in c06Input) {
 				c.Failf("Go runtime panic in SingleInitializer: %v", r)
 			}
 		}()
-		pIn, aIn = append([]byte(nil), p...), append([]byte(nil), a...)
+		if *reuse != nil && len(*reuse) == len(p) {
+			pIn = *reuse
+			copy(pIn, p)
+		} else {
+			pIn = append([]byte(nil), p...)
+			*reuse = pIn
+		}
+		aIn = append([]byte(nil), a...)
 		gotCode, regs, mem, er = SingleInitializer(StandardCodeFormat(pIn), Argument(aIn))
 	}()
 	if malformed {
